@@ -85,9 +85,29 @@ def position_status(text, line, col):
     return 'edge'
 
 
+def exc_key(e):
+    """(class, site).  Site = innermost jedi/parso frame (common.exc_site); for RecursionError
+    the innermost frame is arbitrary, so the site is the most frequent jedi frame of the cycle
+    (ties: smallest name), which is stable."""
+    cls, site = common.exc_site(e)
+    if cls != 'RecursionError':
+        return cls, site
+    import collections
+    import traceback
+    c = collections.Counter()
+    for fr in traceback.extract_tb(e.__traceback__)[-400:]:
+        fn = fr.filename.replace('\\', '/')
+        if '/jedi/' in fn:
+            c['%s:%s' % (fn.split('/jedi/')[-1], fr.name)] += 1
+    if not c:
+        return cls, site
+    top = max(c.values())
+    return cls, min(k for k, v in c.items() if v >= top - 2)
+
+
 def classify(e):
     """'ValueError' (position rejected by the wrapper) or (class, site) of an internal exception"""
-    cls, site = common.exc_site(e)
+    cls, site = exc_key(e)
     if cls == 'ValueError' and site == WRAPPER_SITE:
         return 'ValueError'
     return (cls, site)
@@ -403,29 +423,42 @@ def stream_known(ctx):
         ctx.count('api', (text, line, col, name), bucket='known-probe')
         oracle_position(ctx, 'api', text, line, col, out, 'jedi.Script(source).%s(line, column)' % name,
                         {'method': name, 'family': 'probe'})
-    # genuine: Name.get_type_hint() on a method reached through parent()
+    # the genuine findings, each with its minimal input
+    def attr_probe(src, how, f, method, attribute, line=None, col=None):
+        ctx.count('api', (src, how), bucket='known-probe')
+        try:
+            f()
+        except Exception as e:
+            cls, site = exc_key(e)
+            ctx.fail('api', 'result attribute raised %s at %s' % (cls, site),
+                     {'source': src, 'line': line, 'column': col, 'method': method, 'attribute': attribute,
+                      'exception': cls, 'site': site, 'family': 'probe'},
+                     expected='completes normally', observed={'exception': cls, 'site': site, 'message': short(str(e), 200)},
+                     how=how)
+
     src = 'class C:\n    def m(self):\n        return 1\n'
-    try:
-        for n in jedi.Script(src).goto(2, 11):
-            n.parent().get_type_hint()
-    except Exception as e:
-        cls, site = common.exc_site(e)
-        ctx.fail('api', 'result attribute raised %s at %s' % (cls, site),
-                 {'source': src, 'line': 2, 'column': 11, 'method': 'goto.parent', 'attribute': 'Name.get_type_hint',
-                  'exception': cls, 'site': site, 'family': 'probe'},
-                 expected='completes normally', observed={'exception': cls, 'site': site},
-                 how="jedi.Script(source).goto(2, 11)[0].parent().get_type_hint()")
-    src = 'def g(*args): pass\n'
-    try:
-        for n in jedi.Script(src).get_names():
-            n.get_type_hint()
-    except Exception as e:
-        cls, site = common.exc_site(e)
-        ctx.fail('api', 'result attribute raised %s at %s' % (cls, site),
-                 {'source': src, 'line': None, 'column': None, 'method': 'get_names', 'attribute': 'Name.get_type_hint',
-                  'exception': cls, 'site': site, 'family': 'probe'},
-                 expected='completes normally', observed={'exception': cls, 'site': site},
-                 how="jedi.Script(source).get_names()[0].get_type_hint()")
+    attr_probe(src, 'jedi.Script(source).goto(2, 11)[0].parent().get_type_hint()',
+               lambda: [n.parent().get_type_hint() for n in jedi.Script(src).goto(2, 11)],
+               'goto.parent', 'Name.get_type_hint', 2, 11)
+    src2 = 'def g(*args): pass\n'
+    attr_probe(src2, 'jedi.Script(source).get_names()[0].get_type_hint()',
+               lambda: [n.get_type_hint() for n in jedi.Script(src2).get_names()], 'get_names', 'Name.get_type_hint')
+    src3 = 'def f():\n    return f\n'
+    attr_probe(src3, 'jedi.Script(source).get_names()[0].get_type_hint()',
+               lambda: [n.get_type_hint() for n in jedi.Script(src3).get_names()], 'get_names', 'Name.get_type_hint')
+    src4 = "b'x'\n"
+    attr_probe(src4, 'jedi.Script(source).get_context().docstring()',
+               lambda: jedi.Script(src4).get_context().docstring(), 'get_context', 'Name.docstring')
+    src5 = '_'
+    attr_probe(src5, '[c.get_line_code() for c in jedi.Script(source).complete(1, 1)]',
+               lambda: [c.get_line_code() for c in jedi.Script(src5).complete(1, 1)], 'complete',
+               'Completion.get_line_code', 1, 1)
+    src7 = 'def f():\n    return 1\nclass C:\n    v = f\n    def m(self):\n        return self.v\n'
+    attr_probe(src7, '[g.get_type_hint() for n in jedi.Script(source).infer(6, 20) for g in n.infer()]',
+               lambda: [g.get_type_hint() for n in jedi.Script(src7).infer(6, 20) for g in n.infer()],
+               'infer.infer', 'Name.get_type_hint', 6, 20)
+    src6 = '[\n'
+    attr_probe(src6, 'jedi.Script(source).complete()', lambda: jedi.Script(src6).complete(), 'complete', None)
 
 
 # ------------------------------------------------------------------ compare
